@@ -4348,11 +4348,18 @@ class ParameterizedMetaclass(type):
             if not hasattr(cls, '_param__parameters'):
                 continue
             for dep in cls.param._depends['watch']:
-                method = getattr(mcs, dep[0], None)
+                name = dep[0]
+                method = getattr(mcs, name, None)
                 dinfo = getattr(method, '_dinfo', {'watch': False})
-                if (not any(dep[0] == w[0] for w in _watch+_inherited)
+                if (not any(name == w[0] for w in _watch+_inherited)
                     and dinfo.get('watch')):
-                    _inherited.append(dep)
+                    # Resolve the dependencies of the method this class
+                    # actually inherits, which may not be the one of cls
+                    minfo = MInfo(cls=mcs, inst=None, name=name,
+                                  method=method)
+                    deps, dynamic_deps = _params_depended_on(minfo, dynamic=False)
+                    _inherited.append((name, dinfo['watch'] == 'queued',
+                                       dinfo.get('on_init', False), deps, dynamic_deps))
 
         mcs.param._depends = {'watch': _inherited+_watch}
 
